@@ -1,11 +1,12 @@
-"""G15 hash-to-integer agreement (ECDSA): within one curve module, `sign_hash`, `verify_hash` and `verify_trunc_hash` place the
-bytes of the caller's hash value into the 32-byte scalar buffer in the same way.
+"""G15 hash-to-integer placement (ECDSA): `sign_hash`, `verify_hash` and `verify_trunc_hash` take the LEFTMOST bytes of the caller's
+hash value and place them right-aligned in the scalar buffer (hence all in the same way).
 
 Each function's hash parameter (a public-API position: sign_hash #2, verify_hash #3, verify_trunc_hash #4, counting self)
 is followed through `copy_from_slice` calls, in the function itself and in private callees that receive the whole slice;
 every copy is described as (destination range inside a local buffer, source range inside the hash), caller-relative
-(descr.Describer), with the buffer's and parameter's names erased.  The sets of copies of the siblings must be equal.  A sibling
-whose copies cannot all be described (an idiom the describer does not know, a loop) is *undecided* and takes no part.
+(descr.Describer), with the buffer's and parameter's names erased.  Every described copy must read the hash from offset 0 and
+write either the whole buffer from a fixed-length prefix or at `n - len` / `n - min(len, n)`; a copy that cannot be described (an
+idiom the describer does not know, a loop) is *undecided* and takes no part.
 
 Necessary condition of C08 / C13: a signature made over hash h verifies over the same h only if signer and verifiers convert h to
 the same integer; `tmp[..len]` (left-aligned) in one of them, or `hv[len-32..]` (last instead of first 32 bytes), changes the
@@ -67,8 +68,8 @@ def conv(facts, fn, p, depth=0):
                     pass
                 continue
             dst = d.slice_of(t[2][0])
-            if dst is None or _unknown(dst) or _unknown(src):
-                ok = False      # a range the describer could not pin down: this sibling is undecided
+            if dst is None:
+                ok = False
                 continue
             try:
                 out.add((_erase(dst, p), _erase(src, p)))
@@ -87,44 +88,100 @@ def conv(facts, fn, p, depth=0):
     return out, ok
 
 
+def _src_start(S):
+    """start offset of a source range inside the hash: 0, a value descriptor, or 'unknown'"""
+    if S[0] == "H":
+        return ("k", S[1])
+    if S[0] == "subv" and S[1][0] == "H" and S[1][1] == 0:
+        return S[2]
+    if S[0] == "sub" and S[1][0] == "H" and S[1][1] == 0:
+        return ("k", S[2]) if S[2] is not None else "unknown"
+    return "unknown"
+
+
+def _fixed_len(S):
+    if S[0] == "H" and S[2] is not None:
+        return S[2] - S[1]
+    return None
+
+
+def _right_aligned(E):
+    """k when the destination start is `k - len(H)` or `k - min(len(H), k)`"""
+    if not (isinstance(E, tuple) and len(E) == 4 and E[0] == "bin" and E[1] == "Sub" and E[2][0] == "k"):
+        return None
+    k = E[2][1]
+    r = E[3]
+    whole = ("len", ("H", 0, None))
+    if r == whole:
+        return k
+    if r[0] == "bin" and r[1] == "Min" and set([r[2], r[3]]) == set([whole, ("k", k)]):
+        return k
+    return None
+
+
+def judge(copies):
+    """-> (verdicts, n_decided); a verdict is (ok, text).  bits2int takes the LEFTMOST min(len, k) bytes of the hash and
+    places them right-aligned in the k-byte big-endian buffer."""
+    out = []
+    n = 0
+    for dst, src in sorted(copies, key=str):
+        st = _src_start(src)
+        if st == "unknown":
+            continue
+        if st != ("k", 0):
+            n += 1
+            out.append((False, "a copy takes the hash bytes from offset %s, not from its first byte" % (descr.render_value(st, None).replace("?", "hash") if st[0] != "k" else st[1])))
+            continue
+        if dst == ("B",):
+            fl = _fixed_len(src)
+            if fl is None:
+                continue
+            n += 1
+            out.append((True, "whole %d-byte buffer <- first %d bytes" % (fl, fl)))
+            continue
+        if dst[0] == "subv" and dst[1] == ("B",):
+            k = _right_aligned(dst[2])
+            if k is not None:
+                n += 1
+                out.append((True, "right-aligned in %d bytes" % k))
+                continue
+            if dst[2] == ("k", 0) and _fixed_len(src) is None:
+                n += 1
+                out.append((False, "a hash shorter than the buffer is placed at the START of the buffer (left-aligned), not right-aligned"))
+                continue
+        if dst[0] == "sub" and dst[1] == ("B",) and dst[2] == 0 and _fixed_len(src) is None:
+            n += 1
+            out.append((False, "a hash shorter than the buffer is placed at the START of the buffer (left-aligned), not right-aligned"))
+            continue
+    return out, n
+
+
 def run_hashconv(facts, run, prop):
     cfg = facts.config
-    groups = {}
-    for fn in facts.fns.values():
-        if fn["item"] in HASH_PARAM and fn.get("reach") and fn["file"].startswith("src/"):
-            mod = "::".join(norm_name(fn["name"]).split("::")[:2])
-            groups.setdefault(mod, []).append(fn)
-    n_groups = 0
-    for mod, fns in sorted(groups.items()):
-        res = []
-        for fn in sorted(fns, key=lambda x: x["name"]):
-            p = HASH_PARAM[fn["item"]]
-            if p > fn["argc"]:
-                continue
-            c, ok = conv(facts, fn, p)
-            if ok and c:
-                res.append((fn, c))
-        if len(res) < 2:
+    n_fns = 0
+    for fn in sorted(facts.fns.values(), key=lambda x: x["name"]):
+        if not (fn["item"] in HASH_PARAM and fn.get("reach") and fn["file"].startswith("src/")):
             continue
-        n_groups += 1
-        ref_fn, ref = res[0]
-        # majority reference: the set most siblings agree on
-        sets = [c for _f, c in res]
-        ref = max(sets, key=lambda s: sum(1 for x in sets if x == s))
-        ref_fn = [f_ for f_, c in res if c == ref][0]
-        for fn, c in res:
-            good = c == ref
-            run.oblige(ok=good)
-            if not good:
-                diff = sorted(c ^ ref, key=str)
-                run.add(Finding("G15", "%s|hashconv" % norm_name(fn["name"]),
-                                "gates G15: %s (%s:%s) places the bytes of its hash argument differently from %s: copies %s (destination "
-                                "range in the buffer, source range in the hash) are not common to both -- signer and verifiers would "
-                                "convert the same hash to different integers" % (
-                                    fn["name"], fn["file"], fn["line"], ref_fn["name"], diff[:2]),
-                                config=cfg, site="%s:%s" % (fn["file"], fn["line"]), prop=prop))
-        if res:
-            run.sample("G15 %s: %d sibling(s) agree on %d copies of the hash bytes" % (mod, len(res), len(ref)))
+        p = HASH_PARAM[fn["item"]]
+        if p > fn["argc"]:
+            continue
+        td = facts.ty(fn["locals"][p][0])
+        if not (td.get("k") in ("ref", "ptr") and facts.ty(td["to"]).get("k") == "slice"):
+            continue
+        c, _ok = conv(facts, fn, p)
+        verdicts, n = judge(c)
+        if n == 0:
+            continue            # nothing describable: undecided
+        n_fns += 1
+        bad = [v for v in verdicts if not v[0]]
+        run.oblige(ok=not bad)
+        if bad:
+            run.add(Finding("G15", "%s|hashconv" % norm_name(fn["name"]),
+                            "gates G15: %s (%s:%s) converts its hash argument to an integer differently from bits2int (leftmost "
+                            "min(len, n) bytes, right-aligned): %s" % (fn["name"], fn["file"], fn["line"], bad[0][1]),
+                            config=cfg, site="%s:%s" % (fn["file"], fn["line"]), prop=prop))
+        elif n_fns % 2 == 1:
+            run.sample("G15 %s: %s" % (fn["name"], "; ".join(v[1] for v in verdicts)))
     run.stats = getattr(run, "stats", {})
-    run.stats.update(g15_groups=n_groups)
-    return n_groups
+    run.stats.update(g15_functions=n_fns)
+    return n_fns
